@@ -855,6 +855,24 @@ for pc in (False, True):
     if bad: break
   if bad: break
 res['nesting'] = dict(cases=n, bad=bad)
+# ---- which hook blocks a group has: an equation that INHERITS a hook from a
+# parent class defines it (equations "defining any subset of the hook
+# methods"); has_<hook>() is true iff some equation of the group has it
+HOOKS = ['initialize', 'initialize_pair', 'loop', 'loop_all', 'post_loop', 'reduce']
+bad = None; n = 0
+for r_ in range(0, len(HOOKS) + 1):
+    for sub in itertools.combinations(HOOKS, r_):
+        ns = {h_: (lambda self, d_idx: None) for h_ in sub}
+        Parent = type('Parent', (object,), ns)
+        Child = type('Child', (Parent,), {'extra': lambda self: None})
+        for cls, how in ((Parent, 'defined in the class'), (Child, 'inherited from the parent class')):
+            for others in ([], [type('Plain', (object,), {})()]):
+                g = grp(others + [cls()] + others)
+                for h_ in HOOKS:
+                    got = bool(getattr(g, 'has_' + h_)()); n += 1
+                    if got != (h_ in sub) and bad is None:
+                        bad = dict(hooks_of_the_equation=list(sub), how=how, asked='has_%s()' % h_, returned=got, expected=(h_ in sub))
+res['hooks'] = dict(cases=n, bad=bad)
 print(json.dumps(res))
 '''
 
@@ -940,8 +958,12 @@ def task_bounded(ctx, repo, m):
                 '{no sub-groups, 2, 3 sub-groups} x every valuation of the '
                 'sub-group conditions x parent pre/post/update_nnps, followed '
                 'by a second plain group: every '
-                'block sits under exactly its own condition(s) and loop')
-    for k in ('converged', 'make_data', 'emission', 'nesting'):
+                'block sits under exactly its own condition(s) and loop',
+        hooks='every subset of the six hook methods, defined in the '
+              'equation class or inherited from a parent class, alone or '
+              'between equations without hooks: Group.has_<hook>() is true '
+              'iff the equation has the hook')
+    for k in ('converged', 'make_data', 'emission', 'nesting', 'hooks'):
         if res is None:
             ctx.bounded_check('c03.' + k, bounds[k], 0, False, err)
         else:
